@@ -79,13 +79,14 @@ Definition rows_minus (a b : list (list Z)) : list (list Z) := filter (fun r => 
     pre-state, with the same fault: outcome, number of collaborator calls made, rows removed / added *)
 Definition probe_rec := (Z * Z * list (list Z) * list (list Z))%type.
 (* operation, outcome, removed, added, probes *)
-Definition step_rec := (xop * Z * list (list Z) * list (list Z) * list probe_rec)%type.
+Definition step_rec := (hop * Z * list (list Z) * list (list Z) * list probe_rec)%type.
 
 Definition fault_index (x : xop) : Z :=
   match x with XFault n _ _ => n | XSetLegacy n _ => n | _ => 0 end.
 
-Definition probe_ok (s : state) (prev : list (list Z)) (U : list addr) (D : list denom) (x : xop) (p : probe_rec) : bool :=
+Definition probe_ok (s : state) (prev : list (list Z)) (U : list addr) (D : list denom) (h : hop) (p : probe_rec) : bool :=
   let '(pout, pcalls, prem, padd) := p in
+  match h with HTx _ => false | HX x =>
   match xraw s x with
   | Some (sr, o, nleft) =>
     let cur := observe sr U D in
@@ -93,7 +94,7 @@ Definition probe_ok (s : state) (prev : list (list Z)) (U : list addr) (D : list
     let calls := if nleft =? 0 then n else n - nleft in
     (out_code o =? pout) && (calls =? pcalls) && obs_eqb (rows_minus prev cur) prem && obs_eqb (rows_minus cur prev) padd
   | None => false
-  end.
+  end end.
 
 Inductive case :=
 | CHist (t0 : Z) (U : list addr) (D : list denom) (fund : list (addr * denom * Z))
@@ -108,7 +109,7 @@ Fixpoint replay (s : state) (prev : list (list Z)) (U : list addr) (D : list den
   match steps with
   | [] => true
   | (x, out, removed, added, probes) :: r =>
-    let '(s', out') := xstep s x in
+    let '(s', out') := hstep s x in
     let cur := observe s' U D in
     (out_code out' =? out) && obs_eqb (rows_minus prev cur) removed && obs_eqb (rows_minus cur prev) added
     && forallb (probe_ok s prev U D x) probes
@@ -144,14 +145,18 @@ Fixpoint first_diff (s : state) (prev : list (list Z)) (U : list addr) (D : list
   match steps with
   | [] => None
   | (x, out, removed, added, probes) :: r =>
-    let '(s', out') := xstep s x in
+    let '(s', out') := hstep s x in
     let cur := observe s' U D in
     if (out_code out' =? out) && obs_eqb (rows_minus prev cur) removed && obs_eqb (rows_minus cur prev) added
        && forallb (probe_ok s prev U D x) probes
     then first_diff s' cur U D r (i + 1)
     else Some (i, out_code out', rows_minus prev cur, rows_minus cur prev,
-               match xraw s x with
-               | Some (sr, o, nleft) => [(out_code o, nleft, rows_minus prev (observe sr U D), rows_minus (observe sr U D) prev)]
-               | None => []
+               match x with
+               | HX x0 =>
+                 match xraw s x0 with
+                 | Some (sr, o, nleft) => [(out_code o, nleft, rows_minus prev (observe sr U D), rows_minus (observe sr U D) prev)]
+                 | None => []
+                 end
+               | HTx _ => []
                end)
   end.
